@@ -52,6 +52,9 @@ def gen_model(r, *, budget=6000, max_T=4, force=None):
         n_ds = 1
     n_cc = r.choice([0, 1, 1, 2])
     n_dc = r.choice([0, 1, 1, 2])
+    if "discrete" in force:
+        n_cs = 0
+        n_ds = max(n_ds, 1)
     if "cont2" in force:
         n_cc = 2
     if force & {"f1", "mixed", "filter", "sdaux"}:
@@ -241,7 +244,7 @@ def gen_model(r, *, budget=6000, max_T=4, force=None):
             funcs.append(_fn(f"next_{s}", args + ([pn] if pn else []), body))
         else:
             n = g["n"]
-            want_stoch = ("stoch" in force and not stoch) or r.random() < 0.35
+            want_stoch = (("stoch" in force and not stoch) or r.random() < 0.35) and "nostoch" not in force
             if want_stoch and s != filt_state_f1:
                 deps = r.sample(disc, k=min(len(disc), r.randint(1, 2)))
                 if r.random() < 0.4:
